@@ -25,6 +25,7 @@ type Env struct {
 	rangeIdx func(st *State) (*Term, bool)
 	idxAdj   int64 // #i = rangeindex + idxAdj
 	letDepth int
+	headSt   *State // state at the head of the enclosing loop (for head(e))
 }
 
 func (e *Env) child() *Env {
@@ -428,6 +429,14 @@ func (e *Env) evalCall(x *Expr) (SV, error) {
 			return SV{}, serr("old() used where no pre-state is available: %s", x)
 		}
 		return e.withState(e.old).Eval(x.Args[0])
+	case "head":
+		if len(x.Args) != 1 {
+			return SV{}, serr("head takes one argument")
+		}
+		if e.headSt == nil {
+			return SV{}, serr("head() used outside a loop back/exit clause: %s", x)
+		}
+		return e.withState(e.headSt).Eval(x.Args[0])
 	case "final":
 		if len(x.Args) != 1 || x.Args[0].Kind != "id" {
 			return SV{}, serr("final(param)")
